@@ -80,6 +80,7 @@ struct State {
   std::unordered_map<const volatile void*, Loc> locs;
   std::unordered_map<std::uint64_t, std::string> fiber_names;
   bool trace_unknown = false;
+  std::string scenario_name;  // set by vrt::Main::Scenario; printed by the crash handler
   int unknown_next = 0;
   std::unordered_map<const volatile void*, int> unknown;
   std::uint64_t ops = 0;
@@ -283,7 +284,7 @@ inline void CrashHandler(int sig) {
   for (std::size_t i = 0; i < g.taken.size() && n < static_cast<int>(sizeof(gCrashBuf)) - 16; ++i) {
     n += std::snprintf(gCrashBuf + n, sizeof(gCrashBuf) - n, "%d,", g.taken[i]);
   }
-  n += std::snprintf(gCrashBuf + n, sizeof(gCrashBuf) - n, "\n");
+  n += std::snprintf(gCrashBuf + n, sizeof(gCrashBuf) - n, " scenario=%s\n", g.scenario_name.c_str());
   (void)!write(2, gCrashBuf, static_cast<std::size_t>(n));
   (void)!write(1, gCrashBuf, static_cast<std::size_t>(n));
   _exit(70);
